@@ -30,7 +30,7 @@ TInit ==
     /\ tid \in 1..Len(Traces) /\ l = 1
     /\ LET c == Traces[tid].cfg
        IN cfg = [kind |-> c.kind, n |-> c.n, w |-> c.w, mode |-> c.mode, variant |-> c.variant,
-                 cols |-> ToSet(c.cols), fail |-> c.fail, failmode |-> c.failmode, y0 |-> c.y0, names |-> c.names]
+                 cols |-> ToSet(c.cols), fail |-> c.fail, failmode |-> c.failmode, y0 |-> c.y0, names |-> c.names, labels |-> c.labels]
     /\ phase = "run"
     /\ dur = <<>> /\ obj = <<>> /\ task = <<>> /\ out = <<>> /\ eval = <<>>
     /\ clock = 0 /\ forder = <<>> /\ ftick = <<>> /\ eorder = <<>>
